@@ -295,3 +295,159 @@ def all_in(xs, ys):
 def ucounts(xs):
     import numpy as np
     return ExactSeq([Fraction(int(c)) for c in np.unique(np.asarray(xs), return_counts=True)[1]])
+
+
+def isbool(x):
+    import numpy as np
+    return isinstance(x, (bool, np.bool_))
+
+
+def isstr(x):
+    return isinstance(x, str)
+
+
+def isnumber(x):
+    return _isnum(x) or isinstance(x, float)
+
+
+def all_chars_in(s, alpha):
+    return all(c in alpha for c in s)
+
+
+def is_list(x):
+    return isinstance(x, list)
+
+
+def same_elements(a, b):
+    return list(a) == list(b)
+
+
+def forall(*args):
+    """forall(T1, ..., lambda ...): in the concrete reading quantified integer variables range over a
+    window that covers every index the clause can touch (callers pass bounded predicates)"""
+    *tys, lam = args
+    import itertools as _it
+    return all(lam(*vals) for vals in _it.product(*[_domain(t) for t in tys]))
+
+
+TInt, TNat, TStr, TReal, TBool = "int", "nat", "str", "real", "bool"
+_STRS = [""] + ["".join(t) for n in range(1, 5) for t in itertools.product("ABC", repeat=n)]
+
+
+def _domain(t):
+    if t == "str":
+        return _STRS
+    if t == "bool":
+        return [False, True]
+    return range(-1, 12)
+
+
+def _dense(m):
+    import scipy.sparse as sp
+    return m.toarray() if sp.issparse(m) else m
+
+
+def mat_at(m, r, c):
+    d = _dense(m)
+    r, c = int(r), int(c)
+    if 0 <= r < d.shape[0] and 0 <= c < d.shape[1]:
+        return d[r, c]
+    return 0
+
+
+def mat_shape(m):
+    return tuple(_dense(m).shape)
+
+
+def is_matrix(m, kind):
+    import numpy as np
+    import scipy.sparse as sp
+    return sp.issparse(m) if kind == "coo_matrix" else isinstance(m, np.ndarray)
+
+
+def exists(*args):
+    *tys, lam = args
+    import itertools as _it
+    return any(lam(*vals) for vals in _it.product(*[_domain(t) for t in tys]))
+
+
+def member(coll, y, *hints):
+    return y in coll
+
+
+def delete_at(x, i):
+    i = int(i)
+    return x[:i] + x[i + 1:] if 0 <= i < len(x) else None
+
+
+def sub_at(x, i, a):
+    i = int(i)
+    return x[:i] + a + x[i + 1:] if 0 <= i < len(x) else None
+
+
+def ins_at(x, i, a):
+    i = int(i)
+    return x[:i] + a + x[i:] if 0 <= i <= len(x) else None
+
+
+def char_at(x, i):
+    i = int(i)
+    return x[i:i + 1] if 0 <= i else ""
+
+
+def runstart(x, i):
+    i = int(i)
+    while 0 < i < len(x) and x[i] == x[i - 1]:
+        i -= 1
+    return i
+
+
+def insstart(x, i, a):
+    i = int(i)
+    while 0 < i <= len(x) and a == x[i - 1:i]:
+        i -= 1
+    return i
+
+
+def by_induction(lam):
+    return all(lam(i) for i in range(0, 12))
+
+
+def distinct_letters(a):
+    return len(set(a)) == len(a)
+
+
+# ---- deletion variants / edit distance (C01, C03, ...)
+
+def subseq(v, s):
+    it = iter(s)
+    return all(c in it for c in v)
+
+
+def in_del(v, s, k):
+    return subseq(v, s) and len(s) - len(v) <= int(k) and len(v) <= len(s)
+
+
+def del_set(s, k):
+    k = int(k)
+    out = {s}
+    for e in range(1, min(k, len(s)) + 1):
+        for idx in itertools.combinations(range(len(s)), e):
+            out.add("".join(c for i, c in enumerate(s) if i not in idx))
+    return out
+
+
+def use_lemma(*names):
+    return True
+
+
+def del_count(s, v):
+    return len(s) - len(v)
+
+
+def del_index(s, v):
+    return None
+
+
+def common_del(a, b, k):
+    return None
